@@ -3,7 +3,5 @@ Mutant = 0
 Big = 0
 INIT Init
 NEXT Next
-INVARIANT I_Unique
-INVARIANT I_TieIsAmbiguous
 INVARIANT I_MostSpecific
 CHECK_DEADLOCK FALSE
